@@ -108,6 +108,9 @@ def calibrate(cal, raw):
     The scale bounds the size of the intermediate terms; comparisons allow an absolute error of a few
     rounding units *of that scale*, so that any reasonable evaluation order of a correct implementation
     (Horner, slope-first, ...) passes even when terms cancel."""
+    if isinstance(cal, Spline) and isinstance(raw, float) and (math.isnan(raw) or math.isinf(raw)) and not cal.extrapolate:
+        # NaN and the infinities lie outside every closed range of points: without extrapolation the calibration must fail
+        raise RefRaise("spline query outside the point range without extrapolation (non-finite raw value)", ("CalibrationError",))
     x = frac(raw)
     if isinstance(cal, Poly):
         terms = [Fraction(c) * x ** e for c, e in cal.terms]
